@@ -642,8 +642,33 @@ def raw_stage(ctx: vlib.Ctx, model: Model, raw: Any, rng: vlib.Rng) -> None:
     ctx.cov["float_raw_cases"] = nfl
 
 
+def f2b(x: float) -> int:
+    import struct
+    return struct.unpack("<Q", struct.pack("<d", x))[0]
+
+
+def b2f(b: int) -> float:
+    import struct
+    return struct.unpack("<d", struct.pack("<Q", b))[0]
+
+
 def float_values(rng: vlib.Rng, n: int) -> list[float]:
-    vs = [0.0, -0.0, 1.0, -1.0, 0.5, -0.5, 1.5, -1.5, 2.5, 3.0, -3.0, 7.0, 1e-300, -1e-300, 5e-324, 1e300, -1e300, 1.7976931348623157e308,
+    """Boundary binary64 values (signed zeros, subnormals, 2^52/2^53/2^62/2^63 neighbours, 2^1023, max, inf, nan, the
+    error value -113.0) + values drawn as random 64-bit patterns + random small values."""
+    pats = {0, 1, 2, 2 ** 52 - 1, 2 ** 52, 2 ** 52 + 1, 0x7FEFFFFFFFFFFFFF, 0x7FE0000000000000, 0x7FF0000000000000, 0x7FF8000000000000}
+    for v in (2.0 ** 52, 2.0 ** 53, 2.0 ** 62, 2.0 ** 63, 2.0 ** 64, 1.0, 0.5, float(MAGIC["float"]), 2.0 ** 31, 2.0 ** 15, 256.0):
+        b = f2b(v)
+        pats |= {b - 1, b, b + 1}
+    pats |= {p | (1 << 63) for p in list(pats)}
+    for _ in range(n // 2):
+        r = rng.random()
+        if r < 0.5:
+            pats.add(rng.getrandbits(64))
+        else:       # exponent near the interesting range, random mantissa
+            e = 1023 + rng.choice([-1074 + 1023, -60, -2, -1, 0, 1, 2, 10, 30, 51, 52, 53, 54, 61, 62, 63, 64, 100, 1000, 1023])
+            pats.add((rng.getrandbits(1) << 63) | (max(0, min(2046, e)) << 52) | rng.getrandbits(52))
+    vs = [b2f(p) for p in sorted(pats)]
+    vs += [0.0, -0.0, 1.0, -1.0, 0.5, -0.5, 1.5, -1.5, 2.5, 3.0, -3.0, 7.0, 1e-300, -1e-300, 5e-324, 1e300, -1e300, 1.7976931348623157e308,
           float("inf"), float("-inf"), float("nan"), 2.0 ** 62, -(2.0 ** 62), 2.0 ** 62 - 1024, 2.0 ** 63, -(2.0 ** 63), 2.0 ** 64, 2.0 ** 53, 2.0 ** 53 + 2,
           -(2.0 ** 62) - 1024, 4611686018427387903.5, 9.223372036854775e18, 1e19, -1e19, 1e30, 0.1, -0.1, 255.9, 256.0, -0.9, 32767.5, 2147483648.0]
     for _ in range(n):
@@ -831,7 +856,9 @@ def make_cases0(ctx: vlib.Ctx, fn: dict[str, dict[str, Any]], rng: vlib.Rng) -> 
         elif k == "float":
             fl = float_values(rng, ctx.n(40, 300))
             if len(f["args"]) == 2:
-                cases[name] = [[a.hex(), b.hex()] for a in fl for b in fl if not (name == "f_pow" and abs(b) > 1e6 and abs(a) > 1e6)]
+                ess = [0.0, -0.0, 1.0, -1.0, 2.0, 0.5, 3.0, -3.0, 7.0, 10.0, 0.1, float("inf"), float("-inf"), float("nan"), float(MAGIC["float"]), 5e-324, 1.7976931348623157e308, 2.0 ** 53, 2.0 ** 62]
+                fl2 = fl if not ctx.quick else ess + fl[::3]
+                cases[name] = [[a.hex(), b.hex()] for a in fl for b in fl2 if not (name == "f_pow" and abs(b) > 1e6 and abs(a) > 1e6)]
             else:
                 cases[name] = [[a.hex()] for a in fl]
         elif k == "float_to_fw":
@@ -1003,6 +1030,60 @@ def raw_float_prim(raw: Any, name: str, a: list[Any]) -> str | None:
 
 
 FLOAT_KINDS = ("float", "float_to_fw", "intfloat", "floatint")
+FL2 = {"f_fdiv": "floordiv", "f_mod": "mod", "f_truediv": "div"}
+FL2C = {"f_add": "add", "f_sub": "sub", "f_mul": "mul"}
+
+
+def fz(x: str) -> str:
+    return zt(f2b(float.fromhex(x)))
+
+
+def float_model_lines(name: str, a: list[Any]) -> tuple[str | None, str | None]:
+    """(request for the model of the C code, request for the transcription of CPython) for a float-related function."""
+    if name in FL2:
+        o = FL2[name]
+        return f"fl {o} {fz(a[0])} {fz(a[1])}", f"flp {o} {fz(a[0])} {fz(a[1])}"
+    if name in FL2C:
+        return f"fl {FL2C[name]} {fz(a[0])} {fz(a[1])}", None
+    if name.startswith("fc_"):
+        return f"fl cmp {name[3:]} {fz(a[0])} {fz(a[1])}", None
+    if name in ("f_neg", "f_abs"):
+        return f"fl {name[2:]} {fz(a[0])}", None
+    if name == "f_to_int":
+        return f"fl toint {fz(a[0])}", f"flp toint {fz(a[0])}"
+    if name == "f_to_i64":
+        return f"fl ftofw i64 {fz(a[0])}", None
+    if name == "f_from_int":
+        return f"fl fromint {zt(a[0])}", f"flp fromint {zt(a[0])}"
+    if name == "f_from_i64":
+        return f"fl fwtof {zt(a[0])}", f"flp fromint {zt(a[0])}"
+    if name == "f_int_truediv":
+        return f"fl itruediv {zt(a[0])} {zt(a[1])}", f"flp itruediv {zt(a[0])} {zt(a[1])}"
+    if name.startswith("fm_eq_") or name.startswith("fm_lt_"):
+        op = name[3:5]
+        if name.endswith("_int_float"):
+            return f"fl icmp {op} {zt(a[0])} {fz(a[1])}", f"flp icmp {op} {zt(a[0])} {fz(a[1])}"
+        op = {"eq": "eq", "lt": "gt"}[op]        # f op a  <=>  a op' f
+        return f"fl icmp {op} {zt(a[1])} {fz(a[0])}", f"flp icmp {op} {zt(a[1])} {fz(a[0])}"
+    return None, None
+
+
+def canon_float_result(sv: str) -> str:
+    """Compiled / CPython result -> the model's notation (floats as bit patterns, every NaN alike)."""
+    if sv.startswith("F "):
+        x = float.fromhex(sv[2:])
+        return "F nan" if x != x else "F %d" % f2b(x)
+    return sv
+
+
+def canon_model_float(m: str) -> str:
+    p = m.split()
+    if p[0] == "F":
+        b = tz(p[1])
+        return "F nan" if (b >> 52) & 0x7FF == 0x7FF and b & (2 ** 52 - 1) else "F %d" % b
+    if p[0] == "I":
+        return "I %d" % tz(p[1])
+    return m
 
 
 def module_stage(ctx: vlib.Ctx, bld: Build, model: Model | None, rng: vlib.Rng, raw: Any = None, dirs: list[str | None] | None = None) -> None:
@@ -1035,12 +1116,30 @@ def module_stage(ctx: vlib.Ctx, bld: Build, model: Model | None, rng: vlib.Rng, 
             if ln is not None:
                 mlines.append(ln)
                 mkeys.append((name, i))
+    flines: list[str] = []
+    fkeys: list[tuple[str, int, str]] = []
+    for name, cs in cases.items():
+        if fn[name]["kind"] in FLOAT_KINDS:
+            for i, a in enumerate(cs):
+                cl, pl = float_model_lines(name, a)
+                if cl is not None:
+                    flines.append(cl)
+                    fkeys.append((name, i, "c"))
+                if pl is not None:
+                    flines.append(pl)
+                    fkeys.append((name, i, "py"))
     mout: dict[tuple[str, int], str] = {}
+    fout: dict[tuple[str, int, str], str] = {}
     if model is not None:
         t = time.time()
         for kk, o in zip(mkeys, model.run(mlines)):
             mout[kk] = o
         ctx.log(f"model: {len(mlines)} predictions in {time.time()-t:.1f}s")
+        t = time.time()
+        for kk3, o in zip(fkeys, model.run(flines)):
+            fout[kk3] = canon_model_float(o)
+        ctx.log(f"float model: {len(flines)} predictions (C model + CPython transcription) in {time.time()-t:.1f}s")
+    nfm_c = nfm_py = nbad_fc = nbad_fpy = 0
     nontriv: set[tuple] = set()
     dist: dict[str, int] = {}
     per_fn: dict[str, int] = {}
@@ -1090,6 +1189,24 @@ def module_stage(ctx: vlib.Ctx, bld: Build, model: Model | None, rng: vlib.Rng, 
                             nbad3 += 1
                             if nbad3 <= 5:
                                 ctx.broke("C", f"float three-way (opt {opt})", f"{name}{tuple(a)}: compiled {comp}, lib-rt primitive {pv}, CPython {ref}")
+                    # binary64 model: the model of the C code must equal the compiled result (bit pattern), the
+                    # transcription of CPython must equal the interpreter
+                    mc = fout.get((name, i, "c"))
+                    if mc is not None:
+                        nfm_c += 1
+                        cc = canon_float_result(comp)
+                        if not (mc == cc or (mc.startswith("E ") and cc.startswith("E ") and name == "f_to_i64")):
+                            nbad_fc += 1
+                            if nbad_fc <= 5:
+                                ctx.broke("C", f"float model of the C code vs compiled (opt {opt})", f"{name}{tuple(a)}: model {mc}, compiled {cc} [{comp}], CPython {ref}")
+                    mp = fout.get((name, i, "py"))
+                    if mp is not None:
+                        nfm_py += 1
+                        rr = canon_float_result(ref)
+                        if not (mp == rr or (mp in ("E OverflowError", "E MemoryError") and rr in ("E OverflowError", "E MemoryError"))):
+                            nbad_fpy += 1
+                            if nbad_fpy <= 5:
+                                ctx.broke("C", "transcription of CPython float semantics vs CPython", f"{name}{tuple(a)}: model {mp}, CPython {rr} [{ref}]")
                 # ---- C: model vs compiled
                 m = mout.get((name, i))
                 if m is not None and cls is None:      # inside a reported finding class the model is not compared
@@ -1123,6 +1240,10 @@ def module_stage(ctx: vlib.Ctx, bld: Build, model: Model | None, rng: vlib.Rng, 
                 j = len(cs) // 3
                 ctx.sample({"fn": nm, "expr": fn[nm]["expr"], "args": [str(x)[:30] for x in cs[j]], "compiled": res[nm][j][0][:40], "cpython": res[nm][j][1][:40],
                             "model": mout.get((nm, j), "-")[:80]})
+    ctx.cov["float_model_c_vs_compiled_cases"] = nfm_c
+    ctx.cov["float_model_python_vs_cpython_cases"] = nfm_py
+    ctx.cov["float_model_c_vs_compiled_disagreements"] = nbad_fc
+    ctx.cov["float_model_python_vs_cpython_disagreements"] = nbad_fpy
     ctx.cov["float_cases_three_way_compiled_primitive_cpython"] = n3
     ctx.cov["float_cases_two_way_compiled_cpython"] = n2
     ctx.cov["float_three_way_disagreements_compiled_vs_primitive"] = nbad3
@@ -1145,7 +1266,9 @@ def run(ctx: vlib.Ctx) -> None:
         "(all three monitored by the raw-word correspondence, not proved)",
         "gcc two's-complement semantics with -fno-strict-overflow (as in mypyc's own build flags); arithmetic >> on signed values; 64-bit platform",
         "memory exhaustion on astronomically large shift counts is not modelled; left-shift counts > %d only through the S oracle" % MAX_SHIFT,
-        "floats (float_ops.c, CPyTagged_TrueDivide, int<->float): three-way comparison compiled / lib-rt primitive / CPython by float.hex() only — no model, no theorem",
+        "floats: binary64 is modelled by Coq's SpecFloat (prec 53, emax 1024), the specification FloatAxioms postulates for PrimFloat; no FloatAxioms/Reals "
+        "axiom is used; NaN payload/sign not modelled; fmod/floor/(double)int/long_true_divide slow path are specified on Z (exact / round-to-nearest-even via "
+        "SpecFloat.binary_normalize / SFdiv) and validated bit-exactly against the compiled code and CPython; libm functions (pow, sin, ...) are not modelled",
         "refcounts / memory safety of the primitives are out of scope here (C06)",
         "extraction: ExtrOcamlBasic only; driver tools/ocaml/c15_driver.ml + zio.ml (I/O only); raw extension RAW_C_SRC in tools/harness/C15.py (marshalling only)",
     ]
@@ -1171,6 +1294,14 @@ def run(ctx: vlib.Ctx) -> None:
         model = Model(exe) if exe else None
         if exe is None:
             ctx.broke("C", "extraction", "extracted model does not build")
+        # witnesses replayed on Coq's primitive (hardware) floats + PrimFloat/SpecFloat agreement on samples
+        st, out = vlib.coqc_file("C15/FloatPrim.v")
+        if st != 0:
+            ctx.broke("C", "FloatPrim.v (witnesses on primitive floats)", out[-2000:])
+        else:
+            prims = sorted({ln.split(":")[0].strip() for ln in out.splitlines() if " : " in ln and not ln.startswith(" ")})
+            ctx.cov.setdefault("trusted_base", []).append(
+                "C15/FloatPrim.v (not in Properties.v): vm_compute on kernel primitives only, no FloatAxioms; Print Assumptions lists the primitives: " + ", ".join(prims))
         rawdir = fut_raw.result()
         raw = load_raw(rawdir) if rawdir else None
         if raw is not None and model:
